@@ -15,6 +15,17 @@ PROPS = {
         technique="Lean 4 proof (induction over flag lists, bitwise extensionality) + exhaustive model/implementation correspondence",
         explanation="theorems over all BitVec 64 sets and all flag lists; correspondence exhaustive on the 8-bit flag type",
     ),
+    "C07": dict(
+        title="set: Set is a mathematical set under every operation sequence",
+        lean_modules=["Properties.C07"],
+        harness=[dict(bin="h-set")],
+        trusted=[GO_TRUST % "h-set", "Go's built-in map is a finite map (insert/delete/lookup/len/range)"],
+        assumptions=["Has/HasAny are called with at least one argument (the quantifier); zero-argument calls are compared only in the out-of-domain stream"],
+        level_text="Machine-checked Lean 4 refinement: the model of set.go (nil/allocated map as Option (List), every early return and changed-flag guard mirrored) refines the mathematical set for EVERY operation sequence of any length over any element type (refines_math_set, by induction over the op list from the no-duplicates invariant), with Has/HasAny/Slice characterisations, change-flag <-> membership-changed, and order independence of AddSet/RemoveSet over Go's map iteration order. Tied to /repo by differential execution of random op sequences on int/string/struct sets with a full membership probe after every mutation.",
+        level_note="Trusted: Lean kernel + standard axioms; Go's built-in map; the Go harness and the Lean driver. The theorem is about the model; the correspondence (20k sequences quick, 600k thorough) ties it to set.go.",
+        technique="Lean 4 proof (refinement to a mathematical set by induction over operation sequences) + differential correspondence on op histories",
+        explanation="refinement theorem for all op sequences; correspondence on random histories",
+    ),
 }
 
 # properties not claimed, with the reason (kept current; see DESIGN.md)
